@@ -7,6 +7,7 @@ import subprocess
 import sys
 
 VERIF = os.path.dirname(os.path.dirname(os.path.abspath(__file__)))
+REPO = os.environ.get("MOCLO_REPO", "/repo")     # a scratch worktree when the sweep runs beside other work
 
 
 def main():
@@ -15,11 +16,11 @@ def main():
     meta = json.load(open(os.path.join(d, "meta.json")))
     checks = sys.argv[2:] or [meta["property"]]
     patch = os.path.join(d, "patch.diff")
-    st = subprocess.run(["git", "-C", "/repo", "status", "--porcelain"], stdout=subprocess.PIPE).stdout.decode()
+    st = subprocess.run(["git", "-C", REPO, "status", "--porcelain"], stdout=subprocess.PIPE).stdout.decode()
     if st.strip():
-        print("refusing: /repo is not clean\n" + st)
+        print("refusing: " + REPO + " is not clean\n" + st)
         return 2
-    subprocess.run(["git", "-C", "/repo", "apply", patch], check=True)
+    subprocess.run(["git", "-C", REPO, "apply", patch], check=True)
     results = {}
     try:
         seeds = os.environ.get("SEEDS", "").split()
@@ -38,7 +39,7 @@ def main():
             results[c] = {"exit": p.returncode, "violation": v[0] if v else None, "detail": detail[0][:300] if detail else None}
             print(sid, c, "exit", p.returncode, (v[0][:140] if v else ""), (detail[0][:160] if detail else ""))
     finally:
-        subprocess.run(["git", "-C", "/repo", "checkout", "--", "."], check=True)
+        subprocess.run(["git", "-C", REPO, "checkout", "--", "."], check=True)
         # regenerated tables belong to the clean tree again
         subprocess.run(["/venv/bin/python", os.path.join(VERIF, "harness", "extract.py")], stdout=subprocess.DEVNULL)
         # the evidence files describe the unchanged tree, not this excursion
